@@ -38,16 +38,17 @@ func limitf(format string, a ...interface{}) {
 }
 
 type Engine struct {
-	transSort  *string
-	allocNames []string
-	baseLocals map[string][]string // function -> "name|type" of its locals on the recorded baseline
-	pkg        *packages.Package
-	fset       *token.FileSet
-	info       *types.Info
-	spec       *SpecFile
-	sorts      *Sorts
-	funcs      map[string]*ast.FuncDecl // key -> decl
-	fobjs      map[*types.Func]string   // func object -> key
+	searchCache map[string]*searchHit
+	transSort   *string
+	allocNames  []string
+	baseLocals  map[string][]string // function -> "name|type" of its locals on the recorded baseline
+	pkg         *packages.Package
+	fset        *token.FileSet
+	info        *types.Info
+	spec        *SpecFile
+	sorts       *Sorts
+	funcs       map[string]*ast.FuncDecl // key -> decl
+	fobjs       map[*types.Func]string   // func object -> key
 
 	ufs       map[string]string // name -> declaration
 	ufOrder   []string
